@@ -29,6 +29,7 @@ func checkC17(c *chk.Ctx) {
 		"R17c readers are woken (UpdatedCommitOffset) only after the batch was committed",
 		"R17d the notification key is fixed-width zero-padded hex so that key order is offset order; the scan format derives from the same prefix; the dispatcher resumes at last delivered offset + 1 and the initial dummy batch carries the commit offset it resumes from",
 		"R17e the client maps every notification type",
+		"R17g retention trimming deletes notification batches only up to an offset found by a search that starts at an offset whose timestamp was read and found expired",
 		"R17f notifications are switched on/off with exactly the options that were just persisted with the term (or read back at start-up)",
 	}
 	c.NotDec = []string{
@@ -42,6 +43,7 @@ func checkC17(c *chk.Ctx) {
 	ruleR17d(h)
 	ruleR17e(h)
 	ruleR17f(h)
+	ruleR17g(h)
 }
 
 func ruleR17aOffset(h *H) {
@@ -507,4 +509,68 @@ func sameOptions(base, opt ssa.Value) bool {
 		}
 	}
 	return false
+}
+
+// ruleR17g: the notification trimmer deletes [first, trim] where trim is the result of a
+// search over the stored offsets. The search keeps "everything up to its lower bound has
+// expired" as its invariant and returns the lower bound when nothing above it has
+// expired, so the bound it is started with must itself be an offset whose timestamp was
+// read and found expired. Starting it anywhere else deletes a batch that is still
+// within the retention time.
+func ruleR17g(h *H) {
+	const rule = "R17g"
+	h.Rule(rule, "K6", "in the notifications trimmer the lower bound handed to the expiry search is the very offset whose timestamp was read (and compared with the cutoff) before", 1)
+	delRange := ir.Callee{Pkg: "server/kv", Recv: "WriteBatch", Name: "DeleteRange"}
+	n := 0
+	for _, fn := range h.P.Funcs {
+		if fn.Parent() != nil || ir.RelPkg(ir.PkgPathOf(fn)) != "server/kv" || fn.Signature.Recv() == nil {
+			continue
+		}
+		dels := h.P.CallsIn(fn, delRange)
+		if len(dels) == 0 {
+			continue
+		}
+		// a time-stamp read: static callee of the same receiver type returning (time.Time, error)
+		isTsRead := func(c *ssa.CallCommon) bool {
+			f := c.StaticCallee()
+			if f == nil || f.Signature.Results().Len() != 2 {
+				return false
+			}
+			return f.Signature.Results().At(0).Type().String() == "time.Time"
+		}
+		var reads []*ssa.Call
+		ir.Instrs(fn, func(in ssa.Instruction) {
+			if c, ok := in.(*ssa.Call); ok && isTsRead(c.Common()) {
+				reads = append(reads, c)
+			}
+		})
+		if len(reads) == 0 {
+			continue
+		}
+		// the search: a static call of a method of the same type taking (int64, int64, time.Time)
+		ir.Instrs(fn, func(in ssa.Instruction) {
+			c, ok := in.(*ssa.Call)
+			if !ok {
+				return
+			}
+			f := c.Call.StaticCallee()
+			if f == nil || f.Signature.Recv() == nil || f.Signature.Params().Len() != 3 || f.Signature.Params().At(2).Type().String() != "time.Time" {
+				return
+			}
+			n++
+			h.Fn(ir.FuncName(fn))
+			lo := argOf(c.Common(), 0)
+			good := false
+			for _, r := range reads {
+				if ir.Dominates(r, c) && ir.Canon(argOf(r.Common(), 0)) == ir.Canon(lo) {
+					good = true
+				}
+			}
+			h.Verdict(good, rule, fmt.Sprintf("expiry search #%d in %s", n, ir.FuncName(fn)), h.pos(in), "starts at the offset whose timestamp was read before",
+				"the search for the trim point starts at "+ir.Describe(lo)+", an offset whose timestamp was not read: when nothing above it has expired the search returns it unchecked and a batch that is still within the retention time is deleted")
+		})
+	}
+	if n == 0 {
+		h.Anchor(rule, "the expiry search call in the notifications trimmer")
+	}
 }
